@@ -22,11 +22,19 @@
 //!   The scripted client RECORDS every request the manager hands it (`fwd ...` observation lines) and answers
 //!   from the script.
 //!   | `adv dt` (sleep: timers fire one by one) | `jump dt` (`tokio::time::advance`: late poll) | `shutdown`
+//!   | `close` (the request channel's sender is DROPPED - the request stream ends - instead of `Shutdown` being sent)
+//! CONFIGURATION shapes (`init T n m x mode`): mode `new` (default) = `ExecutionManager::new` with the harness's own
+//!   response channel; `ip` | `il` | `ie` = `ExecutionManager::init` (what `ExecutionBuilder` calls): the manager's
+//!   responses are read from the MERGED account stream `init` returns (snapshot + the client's account stream with
+//!   auto-reconnect + the responses), the client's account stream being `ip` pending for ever | `il` live (a balance
+//!   event every tick) | `ie` ending (two balance events, then the stream ends; the re-connect takes 2 ticks; for ever).
+//!   Only the order events of the merged stream are observed (snapshots, balances, `Reconnecting` are dropped).
 //! One model tick = 10 ms of virtual time.
 use barter::execution::{AccountStreamEvent, manager::ExecutionManager, request::ExecutionRequest};
+use barter_data::streams::reconnect::stream::ReconnectionBackoffPolicy;
 use barter_execution::{
     AccountEvent, AccountEventKind, UnindexedAccountEvent, UnindexedAccountSnapshot,
-    balance::AssetBalance,
+    balance::{AssetBalance, Balance},
     client::ExecutionClient,
     error::{
         ApiError, ConnectivityError, OrderError, UnindexedApiError, UnindexedClientError,
@@ -57,6 +65,7 @@ use barter_integration::{
     snapshot::Snapshot,
 };
 use chrono::{DateTime, Utc};
+use futures::StreamExt;
 use rust_decimal::Decimal;
 use std::{
     collections::VecDeque,
@@ -68,7 +77,12 @@ use vh::*;
 
 const TICK_MS: u64 = 10;
 
+/// tokio's timers reach 2^36 ms (about 2.2 years: the documented maximum of `tokio::time::sleep`); a request
+/// timeout or a time step beyond it is outside what the harness can drive (and what the model is tied to)
+const MAX_TICKS: u64 = 6_800_000_000;
+
 fn ticks(n: u64) -> Duration {
+    assert!(n < MAX_TICKS, "bad duration {n}");
     Duration::from_millis(n * TICK_MS)
 }
 
@@ -112,6 +126,9 @@ struct ScriptedClient {
     scripts: Arc<Mutex<VecDeque<Script>>>,
     /// one `fwd ...` line per request the manager handed to the client, in call order
     seen: Arc<Mutex<Vec<String>>>,
+    /// `ExecutionManager::init` only: (own exchange, configured assets, account-stream mode `p|l|e`, account streams
+    /// handed out so far)
+    acct: Arc<Mutex<(usize, usize, char, u64)>>,
 }
 
 fn exchange_id(e: usize) -> ExchangeId {
@@ -290,7 +307,7 @@ impl Script {
 impl ExecutionClient for ScriptedClient {
     const EXCHANGE: ExchangeId = ExchangeId::Mock;
     type Config = ();
-    type AccountStream = futures::stream::Empty<UnindexedAccountEvent>;
+    type AccountStream = futures::stream::BoxStream<'static, UnindexedAccountEvent>;
 
     fn new(_: Self::Config) -> Self {
         Self::default()
@@ -301,7 +318,8 @@ impl ExecutionClient for ScriptedClient {
         _: &[AssetNameExchange],
         _: &[InstrumentNameExchange],
     ) -> Result<UnindexedAccountSnapshot, UnindexedClientError> {
-        unimplemented!()
+        let (x, ..) = *self.acct.lock().unwrap();
+        Ok(UnindexedAccountSnapshot { exchange: exchange_id(x), balances: vec![], instruments: vec![] })
     }
 
     async fn account_stream(
@@ -309,7 +327,42 @@ impl ExecutionClient for ScriptedClient {
         _: &[AssetNameExchange],
         _: &[InstrumentNameExchange],
     ) -> Result<Self::AccountStream, UnindexedClientError> {
-        unimplemented!()
+        let (x, m, mode, nth) = {
+            let mut a = self.acct.lock().unwrap();
+            a.3 += 1;
+            (a.0, a.1, a.2, a.3 - 1)
+        };
+        // a balance of the first configured asset (none configured: an unknown asset name, the event is filtered)
+        let event = move |k: u64| UnindexedAccountEvent {
+            exchange: exchange_id(x),
+            kind: AccountEventKind::BalanceSnapshot(Snapshot(AssetBalance {
+                asset: asset_name(if m > 0 { (k as usize) % m } else { 0 }),
+                balance: Balance { total: Decimal::from(k), free: Decimal::from(k) },
+                time_exchange: time0(),
+            })),
+        };
+        let every_tick = move |limit: Option<u64>| {
+            futures::stream::unfold(0u64, move |k| async move {
+                if limit.is_some_and(|l| k >= l) {
+                    return None;
+                }
+                tokio::time::sleep(ticks(1)).await;
+                Some((event(k), k + 1))
+            })
+            .boxed()
+        };
+        Ok(match mode {
+            'p' => futures::stream::pending().boxed(),
+            'l' => every_tick(None),
+            'e' => {
+                if nth > 0 {
+                    // the re-connect takes time
+                    tokio::time::sleep(ticks(2)).await;
+                }
+                every_tick(Some(2))
+            }
+            other => panic!("bad account stream mode {other}"),
+        })
     }
 
     fn cancel_order(
@@ -473,14 +526,15 @@ const INDEX_OFFSET: usize = 3;
 const ASSET_OFFSET: usize = 5;
 
 struct Live {
-    req_tx: UnboundedTx<ExecutionRequest<ExchangeIndex, InstrumentIndex>>,
+    /// `None`: the sender was dropped (`close`)
+    req_tx: Option<UnboundedTx<ExecutionRequest<ExchangeIndex, InstrumentIndex>>>,
     resp_rx: UnboundedRx<AccountStreamEvent>,
     client: ScriptedClient,
     handle: Option<tokio::task::JoinHandle<()>>,
     status: &'static str,
 }
 
-fn start(timeout: u64, n: usize, n_assets: usize, own_exchange: usize) -> Live {
+async fn start(timeout: u64, n: usize, n_assets: usize, own_exchange: usize, mode: &str) -> Live {
     assert!(own_exchange < 4, "bad exchange {own_exchange}");
     let (req_tx, req_rx) = mpsc_unbounded();
     let (resp_tx, resp_rx) = mpsc_unbounded();
@@ -496,15 +550,45 @@ fn start(timeout: u64, n: usize, n_assets: usize, own_exchange: usize) -> Live {
         assets,
         instruments,
     );
-    let manager = ExecutionManager::new(
-        req_rx.into_stream(),
-        ticks(timeout),
-        resp_tx,
-        Arc::new(client.clone()),
-        AccountEventIndexer::new(Arc::new(map)),
-    );
-    let handle = tokio::spawn(manager.run());
-    Live { req_tx, resp_rx, client, handle: Some(handle), status: "running" }
+    let indexer = AccountEventIndexer::new(Arc::new(map));
+    let handle = match mode {
+        "new" => tokio::spawn(
+            ExecutionManager::new(req_rx.into_stream(), ticks(timeout), resp_tx, Arc::new(client.clone()), indexer).run(),
+        ),
+        "ip" | "il" | "ie" => {
+            // the assembly of `ExecutionBuilder`: `ExecutionManager::init` builds the response channel itself and
+            // returns the merged account stream (snapshot + account stream with auto-reconnect + responses)
+            *client.acct.lock().unwrap() = (own_exchange, n_assets, mode.chars().nth(1).unwrap(), 0);
+            let (manager, merged) = ExecutionManager::init(
+                req_rx.into_stream(),
+                ticks(timeout),
+                Arc::new(client.clone()),
+                indexer,
+                ReconnectionBackoffPolicy { backoff_ms_initial: 10, backoff_multiplier: 2, backoff_ms_max: 100 },
+            )
+            .await
+            .expect("ExecutionManager::init");
+            // the consumer of the merged stream (in a system: the engine's event feed): order events only
+            tokio::spawn(async move {
+                let mut merged = Box::pin(merged);
+                while let Some(event) = merged.next().await {
+                    let order_event = matches!(
+                        &event,
+                        AccountStreamEvent::Item(AccountEvent {
+                            kind: AccountEventKind::OrderSnapshot(_) | AccountEventKind::OrderCancelled(_),
+                            ..
+                        })
+                    );
+                    if order_event && resp_tx.send(event).is_err() {
+                        break;
+                    }
+                }
+            });
+            tokio::spawn(manager.run())
+        }
+        other => panic!("bad init mode {other}"),
+    };
+    Live { req_tx: Some(req_tx), resp_rx, client, handle: Some(handle), status: "running" }
 }
 
 /// let the manager task run until it has nothing left to do at the current instant
@@ -615,13 +699,17 @@ fn run() {
                     "init" => {
                         let n_assets = op.get(3).map(|m| m.parse().unwrap()).unwrap_or(0);
                         let own_exchange = op.get(4).map(|x| x.parse().unwrap()).unwrap_or(0);
-                        live = Some(start(op[1].parse().unwrap(), op[2].parse().unwrap(), n_assets, own_exchange));
+                        let mode = op.get(5).map(|s| s.as_str()).unwrap_or("new");
+                        live =
+                            Some(start(op[1].parse().unwrap(), op[2].parse().unwrap(), n_assets, own_exchange, mode).await);
                     }
                     "open" | "cancel" => {
                         let l = live.as_mut().expect("init first");
                         if l.status == "running" {
                             l.client.scripts.lock().unwrap().push_back(parse_script(op));
-                            let _ = l.req_tx.send(request(op));
+                            if let Some(tx) = &l.req_tx {
+                                let _ = tx.send(request(op));
+                            }
                         }
                     }
                     // part of a burst: sent without yielding, the manager task does not run before the
@@ -632,7 +720,9 @@ fn run() {
                             let mut op2 = op.clone();
                             op2[0] = op[0].trim_end_matches('+').to_string();
                             l.client.scripts.lock().unwrap().push_back(parse_script(&op2));
-                            let _ = l.req_tx.send(request(&op2));
+                            if let Some(tx) = &l.req_tx {
+                                let _ = tx.send(request(&op2));
+                            }
                         }
                         burst = true;
                     }
@@ -640,8 +730,12 @@ fn run() {
                     "jump" => tokio::time::advance(ticks(op[1].parse().unwrap())).await,
                     "shutdown" => {
                         let l = live.as_mut().expect("init first");
-                        let _ = l.req_tx.send(ExecutionRequest::Shutdown);
+                        if let Some(tx) = &l.req_tx {
+                            let _ = tx.send(ExecutionRequest::Shutdown);
+                        }
                     }
+                    // the request stream ENDS (every sender dropped) while requests may be outstanding
+                    "close" => live.as_mut().expect("init first").req_tx = None,
                     other => panic!("bad op {other}"),
                 }
                 observe(live.as_mut().expect("init first"), lines, !burst).await;
@@ -780,6 +874,10 @@ struct Family {
     /// a silence of this many ticks after every round
     idle: u64,
     empty: bool,
+    /// CONFIGURATION shape: how the manager is assembled (`init T n m x mode`; None: the 2-5 token `init` = `new`)
+    mode: Option<&'static str>,
+    /// the request channel is closed (`close`) instead of `Shutdown` being sent - in every case of the family
+    close: bool,
 }
 
 fn random_case(out: &mut Out, rng: &mut Rng, id: String, thorough: bool, fam: &Family) {
@@ -792,7 +890,9 @@ fn random_case(out: &mut Out, rng: &mut Rng, id: String, thorough: bool, fam: &F
     // configured assets: none (as the manager was configured before the alphabet was extended; 2-arg init),
     // or 1-3
     let m = *rng.pick(&[0usize, 1, 2, 2, 3]);
-    if fam.x != 0 {
+    if let Some(mode) = fam.mode {
+        out.line(format!("init {t} {n} {m} {} {mode}", fam.x));
+    } else if fam.x != 0 {
         out.line(format!("init {t} {n} {m} {}", fam.x));
     } else if m == 0 {
         out.line(format!("init {t} {n}"));
@@ -810,7 +910,7 @@ fn random_case(out: &mut Out, rng: &mut Rng, id: String, thorough: bool, fam: &F
             out.line(format!("{} {dt}", if g.rng.chance(30) { "jump" } else { "adv" }));
         }
         if g.rng.chance(60) {
-            out.line("shutdown");
+            out.line(if fam.close { "close" } else { "shutdown" });
             out.line("adv 1");
         }
         return;
@@ -818,7 +918,7 @@ fn random_case(out: &mut Out, rng: &mut Rng, id: String, thorough: bool, fam: &F
     let max_batch = if thorough { 40 } else { 24 };
     let rounds = g.rng.range(1, 4);
     let panic_case = g.rng.chance(3);
-    let shutdown_case = g.rng.chance(12);
+    let shutdown_case = g.rng.chance(12) || fam.close;
     for round in 0..rounds {
         let mut batch = match g.rng.below(4) {
             0 => g.rng.range(1, 3),
@@ -859,7 +959,7 @@ fn random_case(out: &mut Out, rng: &mut Rng, id: String, thorough: bool, fam: &F
             out.line(r);
         }
         if shutdown_case && round == rounds / 2 {
-            out.line("shutdown");
+            out.line(if fam.close { "close" } else { "shutdown" });
         }
         // let time pass: single ticks, exact timeout, jumps over both response and deadline
         let steps = g.rng.range(1, 5);
@@ -975,6 +1075,40 @@ fn generate(seed: u64, n_cases: usize, tier: &str) {
             _ => Family { empty: true, ..Family::default() },
         };
         random_case(&mut out, &mut drng, format!("d{}", k + 1), thorough, &fam);
+    }
+    // CONFIGURATION-SHAPE families (separately seeded: the cases above are what they were): n/4 more cases `cfg<k>`
+    let mut crng = Rng::new(seed ^ 0x0C0F_165A_C07C_F607);
+    for k in 0..n_cases / 4 {
+        let mode = |r: &mut Rng| Some(*r.pick(&["ip", "il", "ie"]));
+        let fam = match k % 8 {
+            // assembled as `ExecutionBuilder` does: `ExecutionManager::init`, responses read from the merged account
+            // stream; the client's account stream pending / live / ending-and-reconnecting
+            0 => Family { mode: Some("ip"), ..Family::default() },
+            1 => Family { mode: Some("il"), x: crng.below(4) as usize, ..Family::default() },
+            2 => Family { mode: Some("ie"), x: crng.below(4) as usize, ..Family::default() },
+            // the request channel is CLOSED while requests are outstanding (`new` and `init` assemblies)
+            3 => Family { close: true, mode: Some("new"), ..Family::default() },
+            4 => Family { close: true, mode: mode(&mut crng), x: crng.below(4) as usize, ..Family::default() },
+            // a HUGE request timeout: 1e7 ticks (28 h), 1e9 ticks (116 days), 3e9 ticks (347 days; 2T is just below the
+            // 2^36 ms = 2.2 years tokio's timers reach); delays 0 / 1 / T-1 / T / T+1 / 2T / never
+            5 => Family {
+                t: Some(*crng.pick(&[10_000_000u64, 1_000_000_000, 3_000_000_000])),
+                mode: Some(*crng.pick(&["new", "ip"])),
+                ..Family::default()
+            },
+            // no request at all, then the channel is closed
+            6 => Family { empty: true, close: true, mode: mode(&mut crng), ..Family::default() },
+            // several at once: `init` assembly, a non-first exchange, many outstanding, closed channel
+            _ => Family {
+                mode: mode(&mut crng),
+                x: 1 + crng.below(3) as usize,
+                batch: Some((20, 50)),
+                close: crng.chance(50),
+                exotic_pct: 30,
+                ..Family::default()
+            },
+        };
+        random_case(&mut out, &mut crng, format!("cfg{}", k + 1), thorough, &fam);
     }
     out.flush();
 }
